@@ -276,6 +276,10 @@ fn patch_inputs(max_lines: usize) -> Vec<Vec<u8>> {
         out.push(c);
     };
     seqs::dfs(PATCH_LINES.len(), max_lines, &mut pre, &|s: &[usize]| s.len() >= 2 && s[..s.len() - 1].contains(&5), &mut visit);
+    // a final unterminated line ending exactly in the marker
+    for tail in [&b"$NetBSD"[..], b"a\n# $NetBSD", b"a\n$NetBS", b"x $NetBSD$"] {
+        out.push(tail.to_vec());
+    }
     // markers and newlines straddling the 8 KiB buffer boundary
     for pad in [8185usize, 8186, 8188, 8190, 8191, 8192] {
         let mut c = vec![b'p'; pad];
